@@ -11,6 +11,7 @@ fn main() {
 			let cases = read_cases(&args[3]);
 			let mut out = Out::create(&args[4]);
 			match args[2].as_str() {
+				"c17" => vh::c17_rpc_macro::replay(&cases, &mut out),
 				"c19" => vh::c19_http_gate::replay(&cases, &mut out),
 				"c20" => vh::c20_params_builder::replay(&cases, &mut out),
 				"c01" => vh::c01_single::replay(&cases, &mut out),
@@ -28,6 +29,13 @@ fn main() {
 			println!("{{\"n\":{},\"bad\":{}}}", out.n, out.bad);
 			out.finish();
 		}
+		"record" => match args[2].as_str() {
+			"client" => vh::client_scen::run(&args[3], args[4].parse().unwrap(), &args[5]),
+			o => {
+				eprintln!("unknown scenario set {o}");
+				std::process::exit(2);
+			}
+		},
 		"smoke" => {
 			let rt = tokio::runtime::Builder::new_multi_thread().worker_threads(4).enable_all().build().unwrap();
 			rt.block_on(async {
